@@ -15,6 +15,7 @@ import (
 	"strings"
 	"sync"
 	"testing"
+	"time"
 
 	"github.com/ipld/go-storethehash/internal/vrt/vsched"
 )
@@ -275,8 +276,33 @@ func OpenFiles() int {
 	return n
 }
 
-func Goroutines() int { return runtime.NumGoroutine() }
-func Quiesce()        { runtime.Gosched() }
+// Goroutines returns the number of goroutines once it has settled (goroutines that were
+// told to stop need a moment to return).
+func Goroutines() int {
+	n := runtime.NumGoroutine()
+	for i := 0; i < 40; i++ {
+		time.Sleep(5 * time.Millisecond)
+		m := runtime.NumGoroutine()
+		if m >= n && i > 4 {
+			return m
+		}
+		n = m
+	}
+	return n
+}
+
+// Quiesce lets every other goroutine run until it blocks.
+func Quiesce() {
+	for i := 0; i < 5; i++ {
+		runtime.Gosched()
+		time.Sleep(2 * time.Millisecond)
+	}
+}
+
+// SchedBegin/SchedEnd delimit the part of the harness whose interleavings the engine
+// explores; natively they switch the enforcement of a recorded schedule on and off.
+func SchedBegin() { vsched.Enable(true) }
+func SchedEnd()   { vsched.Enable(false) }
 func FireTimers() int { return 0 }
 
 func HashUF(code uint64, n int, data []byte) []byte {
